@@ -461,10 +461,16 @@ def replay_fn(cfg, inputs, ob=None):
                     v = (a, b, b2)
                 else:
                     f = getattr(gen, name)
-                    a, b = f(phi), f(c * phi)
-                    a, b = (a[0], b[0]) if name == "MCF" else (a, b)
-                    ok = abs(a - b) < 1e-7 * (1 + abs(a))
-                    v = (a, b)
+                    # the model's factor, then the same direction at the ends of the property's range of moduli [1e-6, 1e6]
+                    # (an absolute constant hidden in an indicator only shows at small or large amplitude)
+                    ok, v = True, None
+                    for fac in (1.0, 1e-3 / abs(c), 1e-5 / abs(c), 1e-6 / abs(c), 1e4 / abs(c), 1e6 / abs(c)):
+                        c2 = c * fac
+                        a, b = f(phi), f(c2 * phi)
+                        a, b = (a[0], b[0]) if name == "MCF" else (a, b)
+                        if not abs(a - b) < 1e-7 * (1 + abs(a)):
+                            ok, v, c = False, (a, b), c2
+                            break
                 if not ok:
                     return True, f"{name} changes under the factor {c:.4g}: {v} for phi={np.round(phi, 4).tolist()}", f"{name}:scale"
                 return False, "scale invariance ok", None
